@@ -227,7 +227,13 @@ class DelimSource(Source[Iterable[str]]):
         delim       = self._delim
 
         if split_lines:
+            after_cr = False
             for text in filter(None,self._source.read()):
+                # a "\r\n" terminator can be split across two texts, in that case
+                # the "\r" already ended the line so the leading "\n" is dropped
+                if after_cr and text[0] == '\n': text = text[1:]
+                if not text: after_cr = False; continue
+                after_cr = text[-1] == '\r'
                 lines = text.splitlines()
                 if pending:
                     lines[0] = pending + lines[0]
